@@ -18,6 +18,9 @@ import (
 //	'm' imported guest function of another instance (module level + 1)
 //	'h' host function (Go) imported from "env"
 //	't' tail call (return_call) to a function of the same module; only as last child
+//	'u' tail call through the table (return_call_indirect) to a function of the same module
+//	'v' tail call (return_call) to an imported guest function of another instance (level + 1)
+//	'w' tail call (return_call) to a host function
 //	'r' re-entry: the parent is a host function which calls the node through a fresh
 //	    mod.ExportedFunction(...).Call on the module that called the host function
 //
@@ -79,7 +82,9 @@ func ParseTree(s string) (Tree, error) {
 	return t, nil
 }
 
-func (t Tree) isHost(i int) bool { return t[i].Kind == 'h' }
+func (t Tree) isHost(i int) bool { return t[i].Kind == 'h' || t[i].Kind == 'w' }
+
+func isTailKind(k byte) bool { return k == 't' || k == 'u' || k == 'v' || k == 'w' }
 
 func (t Tree) children(i int) []int {
 	var c []int
@@ -98,7 +103,7 @@ func (t Tree) validate() error {
 		}
 		ph := t.isHost(n.Parent)
 		switch n.Kind {
-		case 'd', 'i', 'm', 'h', 't':
+		case 'd', 'i', 'm', 'h', 't', 'u', 'v', 'w':
 			if ph {
 				return fmt.Errorf("node %d: host parent needs kind r", i)
 			}
@@ -109,7 +114,7 @@ func (t Tree) validate() error {
 		default:
 			return fmt.Errorf("node %d: kind %c", i, n.Kind)
 		}
-		if n.Kind == 't' {
+		if isTailKind(n.Kind) {
 			ch := t.children(n.Parent)
 			if ch[len(ch)-1] != i {
 				return fmt.Errorf("node %d: tail call must be the last child", i)
@@ -142,7 +147,7 @@ func (t Tree) levels() []int {
 	l := make([]int, len(t))
 	for i := 1; i < len(t); i++ {
 		l[i] = l[t[i].Parent]
-		if t[i].Kind == 'm' {
+		if t[i].Kind == 'm' || t[i].Kind == 'v' {
 			l[i]++
 		}
 	}
@@ -181,7 +186,7 @@ func (t Tree) sigs(start bool, rot int) []sig {
 		switch {
 		case i == 0 && start:
 			s[i] = sigVoid
-		case t[i].Kind == 't':
+		case isTailKind(t[i].Kind):
 			s[i] = s[t[i].Parent]
 		default:
 			s[i] = sigTable[(i+rot)%len(sigTable)]
@@ -269,7 +274,10 @@ func makeResults(node int, s sig, acc uint64) []uint64 {
 // ---------------------------------------------------------------- enumeration
 
 // enumTrees returns every valid tree with exactly n nodes, in a fixed order.
-func enumTrees(n int) []Tree {
+func enumTrees(n int) []Tree { return enumTreesKinds(n, "dimht") }
+
+// enumTreesKinds: as enumTrees with the given edge kinds for guest parents.
+func enumTreesKinds(n int, guestKinds string) []Tree {
 	var out []Tree
 	var rec func(t Tree)
 	rec = func(t Tree) {
@@ -302,7 +310,7 @@ func enumTrees(n int) []Tree {
 			}
 			// tail edges must be last children
 			for i := 1; i < len(t); i++ {
-				if t[i].Kind == 't' {
+				if isTailKind(t[i].Kind) {
 					ch := t.children(t[i].Parent)
 					if ch[len(ch)-1] != i {
 						return
@@ -314,7 +322,7 @@ func enumTrees(n int) []Tree {
 		}
 		// the new node attaches to a node on the rightmost path (pre-order numbering)
 		for p := len(t) - 1; p >= 0; p = t[p].Parent {
-			kinds := "dimht"
+			kinds := guestKinds
 			if t.isHost(p) {
 				kinds = "r"
 			}
